@@ -213,6 +213,7 @@ func e2e(run *lib.Run, st *lib.Stats, rng *lib.Rng, f *fixture.Fixture) {
 			check("transfer/duplicate-input", tx2, 2, []int64{genesisValue}, append(append([]int64{}, ov...), ov...))
 		}
 	}
+	var fundTx interfaces.Transaction
 	// ---- CRCAppropriation end to end: fund the CR assets address in a real block, then the
 	// appropriation through CheckTransactionSanity + CheckTransactionContext (validation ends in
 	// SpecialContextCheck: no fee check, no signature)
@@ -220,7 +221,8 @@ func e2e(run *lib.Run, st *lib.Stats, rng *lib.Rng, f *fixture.Fixture) {
 		assets, expenses := *params.CRConfiguration.CRAssetsProgramHash, *params.CRConfiguration.CRExpensesProgramHash
 		const V = int64(100000000000) // 1000 ELA
 		fund, err := f.Transfer([]fixture.In{{Op: f.GenesisOut, Key: 0}},
-			[]fixture.Out{{To: &assets, Value: elacommon.Fixed64(V)}, {To: &assets, Value: elacommon.Fixed64(V)}, {Key: 0, Value: elacommon.Fixed64(genesisValue - 2*V - 100)}}, 777)
+			[]fixture.Out{{To: &assets, Value: elacommon.Fixed64(V)}, {To: &assets, Value: elacommon.Fixed64(V)}, {Key: 0, Value: elacommon.Fixed64(V)},
+				{Key: 0, Value: elacommon.Fixed64(genesisValue - 3*V - 100)}}, 777)
 		if err != nil {
 			st.Fail("c01:e2e-fixture", "funding transfer: "+err.Error(), nil)
 			return
@@ -234,6 +236,7 @@ func e2e(run *lib.Run, st *lib.Stats, rng *lib.Rng, f *fixture.Fixture) {
 			return
 		}
 		parent = b
+		fundTx = fund
 		origNeed, origAmount := f.Committee.NeedAppropriation, f.Committee.AppropriationAmount
 		defer func() { f.Committee.NeedAppropriation, f.Committee.AppropriationAmount = origNeed, origAmount }()
 		f.Committee.NeedAppropriation = true
@@ -267,6 +270,86 @@ func e2e(run *lib.Run, st *lib.Stats, rng *lib.Rng, f *fixture.Fixture) {
 			}
 		}
 	}()
+	// ---- repeated outpoints: the outputs a transaction spends are its DISTINCT outpoints
+	if fundTx != nil {
+		const V = int64(100000000000)
+		big_ := genesisValue - 3*V - 100
+		A := common2.OutPoint{TxID: fundTx.Hash(), Index: 3} // worth big_, key 0
+		B := common2.OutPoint{TxID: fundTx.Hash(), Index: 2} // worth V, key 0
+		val := map[common2.OutPoint]int64{A: big_, B: V}
+		in := func(op common2.OutPoint, seq uint32) fixture.In { return fixture.In{Op: op, Key: 0, Seq: seq} }
+		shapes := [][]fixture.In{
+			{in(A, 0), in(B, 0)}, // control: two distinct outpoints
+			{in(A, 0), in(A, 0)},
+			{in(A, 0), in(A, 1)},
+			{in(A, 1), in(A, 0)},
+			{in(A, 0), in(A, 1), in(A, 2)},
+			{in(A, 7), in(A, 7), in(A, 8)},
+			{in(B, 0), in(A, 0), in(A, 1)},
+			{in(A, 0), in(B, 0), in(A, 1)},
+			{in(A, 0), in(A, 1), in(B, 0)},
+			{in(A, 0), in(B, 5), in(A, 4294967295), in(B, 6)},
+			{in(B, 0), in(B, 4294967294)},
+		}
+		_, tipH := f.Tip()
+		for si, ins := range shapes {
+			var withMult int64
+			distinct := map[common2.OutPoint]bool{}
+			var inVals []int64
+			for _, i := range ins {
+				withMult += val[i.Op]
+				if !distinct[i.Op] {
+					distinct[i.Op] = true
+					inVals = append(inVals, val[i.Op])
+				}
+			}
+			var dsum int64
+			for _, v := range inVals {
+				dsum += v
+			}
+			for vi, total := range []int64{withMult - 100, dsum - 100} { // the attack amount, and an honest amount
+				tx, err := f.Transfer(ins, []fixture.Out{{Key: 1, Value: elacommon.Fixed64(total / 2)}, {Key: 2, Value: elacommon.Fixed64(total - total/2)}}, uint64(3000+10*si+vi))
+				if err != nil {
+					continue
+				}
+				outVals := []int64{total / 2, total - total/2}
+				for _, h := range []uint32{tipH + 1, nft + 1} {
+					check(fmt.Sprintf("transfer/repeated-outpoint %v", seqs(ins, A)), tx, h, inVals, outVals)
+				}
+				if total > dsum && vi == 0 { // the same transaction through the pool and in a block
+					var poolErr, blockErr interface{}
+					connected := false
+					lib.Recover(func() {
+						if e := f.SubmitTx(tx); e != nil {
+							poolErr = e.Error()
+						}
+						b, err := f.BuildBlock(parent, []interfaces.Transaction{tx}, fixture.BlockOpt{Miner: 3, Salt: uint64(si)})
+						if err != nil {
+							blockErr = "build: " + err.Error()
+							return
+						}
+						inMain, _, err := f.ProcessBlock(b)
+						if err != nil {
+							blockErr = err.Error()
+						}
+						connected = inMain && err == nil
+						if connected {
+							parent = b
+						}
+					})
+					rep := map[string]interface{}{"op": "TxPool.AppendToTxPool + BlockChain.ProcessBlock", "type": "TransferAsset", "inputs": seqs(ins, A),
+						"distinctSpent": inVals, "outs": outVals, "mempoolErr": poolErr, "blockErr": blockErr, "blockConnected": connected}
+					st.Count(fmt.Sprintf("blockpath|rep|%d", si), true, "block-path")
+					if poolErr == nil {
+						st.Fail("c01:mempool-accepts-value-creation", "the transaction pool accepted a transaction whose outputs exceed the distinct outputs it spends (one outpoint named several times)", rep)
+					}
+					if connected {
+						st.Fail("c01:block-creates-value", "a block containing a transaction whose outputs exceed the distinct outputs it spends (one outpoint named several times) was connected to the chain", rep)
+					}
+				}
+			}
+		}
+	}
 	st.Extra["e2e_cases"] = total
 	st.Extra["e2e_accepted"] = accepted
 	if accepted == 0 {
@@ -274,4 +357,17 @@ func e2e(run *lib.Run, st *lib.Stats, rng *lib.Rng, f *fixture.Fixture) {
 	}
 	_ = big.NewInt
 	_ = rng
+}
+
+// seqs renders an input list as "A#seq"/"B#seq" for reports.
+func seqs(ins []fixture.In, a common2.OutPoint) []string {
+	var r []string
+	for _, i := range ins {
+		n := "B"
+		if i.Op == a {
+			n = "A"
+		}
+		r = append(r, fmt.Sprintf("%s#%d", n, i.Seq))
+	}
+	return r
 }
